@@ -10,7 +10,7 @@ LEVEL = "exploration"
 TECHNIQUE = "runtime monitoring: metric-axiom and dense-arithmetic oracles over generated pairs/triples, each executed under JIT, bounds-checked JIT and interpreter"
 LEVEL_TEXT = ("Every distance function is called on tens of thousands of generated pairs and triples steered at the degenerate "
               "configurations the property names (proportional, disjoint, single-entry, tiny and huge mass); an oracle written from the "
-              "statement judges finiteness, sign, symmetry, bounds, triangle inequality and sparse=dense. Held means: no violation on the "
+              "statement judges finiteness, sign, symmetry, bounds, triangle inequality and sparse=dense (sparse operands both without and with explicitly stored zeros; operands must come back unchanged; kantorovich1d also for orders 2, 3, 4, 2.5). Held means: no violation on the "
               "executions produced, not for all inputs.")
 LEVEL_NOTE = "Trusts numpy float64 arithmetic as the dense reference; float32 tolerance is an error bound (stated in assumptions), not a calibration."
 RULE = (
